@@ -2,7 +2,8 @@
 """Confirm a seeded breaking change and run checks against it.
 
   tools/seedcheck.py confirm <dir>             # dir has patch.diff and demo.py
-  tools/seedcheck.py run <dir> <ID> [tier] [--only substr]
+  tools/seedcheck.py run <dir> <ID> [tier] [--only substr]          # against a patched scratch worktree (VF_REPO)
+  tools/seedcheck.py run-inplace <dir> <ID> [tier] [--only substr]  # against /repo itself, patched and restored
 
 confirm: in a scratch worktree of /repo HEAD (outside /repo and /verif): demo passes on the clean tree,
          patch applies, the suite still passes (1385), demo fails with the patch. Worktree removed.
@@ -61,6 +62,32 @@ def confirm(d):
 
 
 def run(d, pid, tier="quick", extra=()):
+    """Runs ./check against a scratch worktree of /repo HEAD with the patch applied (VF_REPO), results under a scratch
+    directory (VF_OUT): /repo, the evidence files and the replays of /verif are not touched, so this can run next to
+    other checks. `run-inplace` is the same against /repo itself (git apply / git checkout -- .)."""
+    patch = os.path.join(os.path.abspath(d), "patch.diff")
+    wt = tempfile.mkdtemp(prefix="sr-", dir="/tmp")
+    os.rmdir(wt)
+    out_dir = tempfile.mkdtemp(prefix="so-", dir="/tmp")
+    rc, out = sh(["git", "-C", "/repo", "worktree", "add", "-q", "--detach", wt, "HEAD"])
+    if rc:
+        print("worktree failed", out)
+        return 2
+    try:
+        rc, out = sh(["git", "apply", patch], cwd=wt)
+        if rc:
+            print("patch does not apply:", out)
+            return 2
+        env = dict(os.environ, VF_REPO=wt, VF_OUT=out_dir)
+        rc, out = sh(["./check", pid, "--tier", tier] + list(extra), cwd="/verif", env=env, timeout=7200)
+    finally:
+        sh(["git", "-C", "/repo", "worktree", "remove", "--force", wt])
+        shutil.rmtree(wt, ignore_errors=True)
+        shutil.rmtree(out_dir, ignore_errors=True)
+    return report(rc, out)
+
+
+def run_inplace(d, pid, tier="quick", extra=()):
     patch = os.path.join(os.path.abspath(d), "patch.diff")
     rc, out = sh(["git", "-C", "/repo", "status", "--porcelain"])
     if out.strip():
@@ -75,6 +102,10 @@ def run(d, pid, tier="quick", extra=()):
     finally:
         sh(["git", "-C", "/repo", "checkout", "--", "."])
         shutil.rmtree("/repo/.hypothesis/examples", ignore_errors=True)
+    return report(rc, out)
+
+
+def report(rc, out):
     lines = out.splitlines()
     viol = [l for l in lines if l.startswith("VIOLATION")]
     summ = [l for l in lines if " conditions {" in l]
@@ -94,4 +125,4 @@ if __name__ == "__main__":
     if rest and not rest[0].startswith("--"):
         tier = rest[0]
         rest = rest[1:]
-    sys.exit(run(sys.argv[2], sys.argv[3], tier, rest))
+    sys.exit((run_inplace if sys.argv[1] == "run-inplace" else run)(sys.argv[2], sys.argv[3], tier, rest))
